@@ -103,6 +103,15 @@ func init() {
 			"range over a map is modelled with an arbitrary order and a ghost set of visited keys",
 		},
 	}
+	propDefs["C12"] = &PropDef{
+		ID:   "C12",
+		Pkgs: []pkgRef{{"util/resolve", "deps.dev/util/resolve"}},
+		Assume: []string{
+			"partial: the two sort comparators (SortVersions for Maven/PyPI on parsable versions, sortNPMVersions incl. unparsable strings) are strict orders that are total on distinct version strings, hence the sorted list is unique; the filter loop of matchRequirement is under contract but only part of its invariants discharge (soundness/completeness across append are not claimed); latest repositioning and the non-range npm lookup are not covered",
+			"semver's Compare is used through the order laws proved under C01 (assumed here: lemma semver.Compare.*); ParseConstraint and Constraint.Match enter through assumed frames",
+			"permutation invariance follows from uniqueness of a sorted sequence under a strict total order (standard fact about sort.Slice, not re-proved)",
+		},
+	}
 	propDefs["C14"] = &PropDef{
 		ID:   "C14",
 		Pkgs: []pkgRef{{"util/resolve", "deps.dev/util/resolve"}},
